@@ -9,6 +9,7 @@
                               capabilities, and the capabilities of a True-typed expression hold unconditionally
      c03_impossible_partial   an expression typed False never evaluates to true
      c03_policy_sound_partial an accepted condition (Success / Irrelevant) evaluates to a boolean or a permitted error
+     c03_strict_in_permissive_partial   strict-accepted => permissive-accepted with the same type and capabilities
    "partial" = the syntactic fragment TypecheckMain.in_fragment:
      literals, variables, && and || with full capability flow (union / intersection, short-circuit singleton
      typing), !, ==, if-then-else with singleton short-circuit typing and capability flow (branches boolean-rooted),
@@ -18,7 +19,7 @@
      (longs, datetime, duration); like; is; isEmpty, contains, containsAll, containsAny.
    Not in the fragment (see notes/C03.md): attribute access on non-path expressions, non-boolean `if` branches,
    tags, in, extension calls, set and record literals. *)
-From Cedar Require Import Typecheck ConformProofs ExprEq TypecheckProofs TypecheckProofs2 TypecheckProofs3 TypecheckProofs4 TypecheckMain.
+From Cedar Require Import Typecheck ConformProofs ExprEq TypecheckProofs TypecheckProofs2 TypecheckProofs3 TypecheckProofs4 TypecheckMain TypecheckModes.
 
 Theorem c03_sound_partial :
   forall m sch env q es,
@@ -47,6 +48,14 @@ Theorem c03_policy_sound_partial :
   (exists c, eval [] q es e = Err c /\ allowed_err c) \/ (exists b, eval [] q es e = Ok (VBool b)).
 Proof. exact tc_env_sound. Qed.
 Print Assumptions c03_policy_sound_partial.
+
+(* both modes are one function: on the proved fragment everything strict typechecking accepts is accepted by
+   permissive typechecking, with the same type and the same capabilities.  "partial" = in_fragment. *)
+Theorem c03_strict_in_permissive_partial :
+  forall sch env e, in_fragment e = true ->
+  forall cs r, tc Strict sch env cs e = Some r -> tc Permissive sch env cs e = Some r.
+Proof. exact strict_in_permissive_fragment. Qed.
+Print Assumptions c03_strict_in_permissive_partial.
 
 (* the store hypothesis is what the implementation-side checker (model: Conform.conf_entity) establishes *)
 Theorem c03_store_ok_from_checker :
